@@ -39,6 +39,8 @@ pub enum Act {
     LongPause,
     /// slave input data changes to pattern p (before the request arrives), then Answer
     InputChange(u8),
+    /// the user adds the last configured peripheral to the running master (only with `late_add`)
+    AddLate,
 }
 
 impl Act {
@@ -58,6 +60,7 @@ impl Act {
             "DiagPending" => Act::DiagPending,
             "ExtDiag" => Act::ExtDiag,
             "LongPause" => Act::LongPause,
+            "AddLate" => Act::AddLate,
             "Malformed" => Act::Malformed(num(s)[0]),
             "UserDiag" => Act::UserDiag(num(s)[0]),
             "UserWrite" => Act::UserWrite(num(s)[0], num(s)[1]),
@@ -89,6 +92,8 @@ pub struct W4Cfg {
     pub mon: Mon,
     /// maximum number of non-default (non-Answer) actions on a path (deviation budget); 255 = unbounded
     pub dev_budget: u8,
+    /// the last peripheral is not added before going to Operate but by the action AddLate
+    pub late_add: bool,
 }
 
 pub fn cfg_to_json(c: &W4Cfg) -> Value {
@@ -100,7 +105,7 @@ pub fn cfg_to_json(c: &W4Cfg) -> Value {
             "user_prm": p.user_prm.as_ref().map(|b| hex(b)), "config": p.config.as_ref().map(|b| hex(b)),
             "in_len": p.in_len, "out_len": p.out_len, "diag_buf": p.diag_buf})).collect::<Vec<_>>(),
         "slave_dev": c.slave_dev, "gc_every_visit": c.gc_every_visit, "high_prio": c.high_prio,
-        "acts": c.acts.iter().map(|a| a.name()).collect::<Vec<_>>(), "mon": format!("{:?}", c.mon), "dev_budget": c.dev_budget,
+        "acts": c.acts.iter().map(|a| a.name()).collect::<Vec<_>>(), "mon": format!("{:?}", c.mon), "dev_budget": c.dev_budget, "late_add": c.late_add,
     })
 }
 
@@ -148,6 +153,7 @@ pub fn cfg_from_json(v: &Value) -> W4Cfg {
             _ => Mon::C14,
         },
         dev_budget: u(&v["dev_budget"]) as u8,
+        late_add: v["late_add"].as_bool().unwrap_or(false),
     }
 }
 
@@ -177,6 +183,9 @@ pub fn catalogue(ts: u8, addr: u8, in_len: usize) -> Vec<(&'static str, Vec<u8>)
         ("diag_cfg_fault", d(Some(62), Some(60), 0x08, vec![0x04, 0x04, 0x00, ts, 0x13, 0x37])),    // 17
         ("diag_ext_len0", d(Some(62), Some(60), 0x08, vec![0x08, 0x04, 0x00, ts, 0x13, 0x37, 0x40])), // 18
         ("data_244", d(None, None, 0x08, vec![0x79; 244])),                                         // 19
+        ("diag_ext_device_cut", d(Some(62), Some(60), 0x08, vec![0x08, 0x04, 0x00, ts, 0x13, 0x37, 0x02])), // 20
+        ("diag_ext_ident_cut", d(Some(62), Some(60), 0x08, vec![0x08, 0x04, 0x00, ts, 0x13, 0x37, 0x43, 0x01])), // 21
+        ("diag_ext_channel_cut", d(Some(62), Some(60), 0x08, vec![0x08, 0x04, 0x00, ts, 0x13, 0x37, 0x81, 0x00])), // 22
     ]
 }
 
@@ -264,7 +273,15 @@ impl Exec {
     }
 
     pub fn new_verbose(cfg: &Arc<W4Cfg>, verbose: bool) -> Exec {
-        let rig = Rig::new(&cfg.rig);
+        let rig = if cfg.late_add && !cfg.rig.periphs.is_empty() {
+            let mut rc2 = cfg.rig.clone();
+            rc2.periphs.pop();
+            let mut r = Rig::new(&rc2);
+            r.cfg = cfg.rig.clone();
+            r
+        } else {
+            Rig::new(&cfg.rig)
+        };
         let mut slaves = vec![];
         for (i, p) in cfg.rig.periphs.iter().enumerate() {
             let mut s = RefSlave::new(p);
@@ -327,11 +344,13 @@ impl Exec {
     }
 
     fn live_flags(&mut self) -> Vec<(bool, bool)> {
-        (0..self.cfg.rig.periphs.len()).map(|i| { let p = self.rig.periph(i); (p.is_live(), p.is_running()) }).collect()
+        let present = self.rig.handles.len();
+        (0..self.cfg.rig.periphs.len()).map(|i| if i < present { let p = self.rig.periph(i); (p.is_live(), p.is_running()) } else { (false, false) }).collect()
     }
 
     fn images(&mut self) -> Vec<(Vec<u8>, Vec<u8>)> {
-        (0..self.cfg.rig.periphs.len()).map(|i| { let p = self.rig.periph(i); (p.pi_i().to_vec(), p.pi_q().to_vec()) }).collect()
+        let present = self.rig.handles.len();
+        (0..self.cfg.rig.periphs.len()).map(|i| if i < present { let p = self.rig.periph(i); (p.pi_i().to_vec(), p.pi_q().to_vec()) } else { (vec![], vec![]) }).collect()
     }
 
     /// Take events after a callback and feed the event monitors.
@@ -489,7 +508,8 @@ impl Exec {
         }
         let n = self.cfg.rig.periphs.len() as u8;
         match a {
-            Act::UserDiag(i) | Act::UserWrite(i, _) => i < n,
+            Act::UserDiag(i) | Act::UserWrite(i, _) => i < n && (i as usize) < self.rig.handles.len(),
+            Act::AddLate => self.cfg.late_add && self.rig.handles.len() < self.cfg.rig.periphs.len(),
             Act::LongPause => true,
             Act::Answer if self.outstanding.is_none() => true, // "visit again"
             _ => self.outstanding.is_some(),
@@ -518,6 +538,18 @@ impl Exec {
             Act::LongPause => {
                 let s = self.rig.slot_us();
                 self.rig.advance(50 * s + 1);
+                return;
+            }
+            Act::AddLate => {
+                let p = self.cfg.rig.periphs.last().unwrap().clone();
+                match catch(|| self.rig.dp.add(make_peripheral(&p))) {
+                    Ok(h) => self.rig.handles.push(h),
+                    Err(pn) => self.panic_seen("DpMaster::add", pn),
+                }
+                // an idle master (no peripherals before) gets going at its next turn
+                if self.outstanding.is_none() && !self.dead {
+                    self.advance();
+                }
                 return;
             }
             _ => {}
@@ -1061,6 +1093,7 @@ impl Exec {
         }
         b.push(self.idle as u8);
         b.push(self.dead as u8);
+        b.push(self.rig.handles.len() as u8);
         if self.cfg.dev_budget != 255 {
             b.push(self.deviations.min(self.cfg.dev_budget));
         }
